@@ -10,6 +10,7 @@ import (
 	"io/fs"
 	"os"
 
+	"github.com/rogpeppe/go-internal/internal/verifhook"
 	"github.com/rogpeppe/go-internal/lockedfile/internal/filelock"
 )
 
@@ -24,6 +25,7 @@ func openFile(name string, flag int, perm fs.FileMode) (*os.File, error) {
 		return nil, err
 	}
 
+	verifhook.At("lockedfile.open.afterOpen")
 	switch flag & (os.O_RDONLY | os.O_WRONLY | os.O_RDWR) {
 	case os.O_WRONLY, os.O_RDWR:
 		err = filelock.Lock(f)
@@ -35,6 +37,7 @@ func openFile(name string, flag int, perm fs.FileMode) (*os.File, error) {
 		return nil, err
 	}
 
+	verifhook.At("lockedfile.open.afterLock")
 	if flag&os.O_TRUNC == os.O_TRUNC {
 		if err := f.Truncate(0); err != nil {
 			// The documentation for os.O_TRUNC says “if possible, truncate file when
@@ -57,6 +60,7 @@ func closeFile(f *os.File) error {
 	// while the descriptor is still valid — that is, before the file is closed —
 	// and avoid unlocking files that are already closed.
 	err := filelock.Unlock(f)
+	verifhook.At("lockedfile.close.afterUnlock")
 
 	if closeErr := f.Close(); err == nil {
 		err = closeErr
